@@ -77,6 +77,7 @@ fn dispatch(line: &str) -> PResult<String> {
         "rt" => by_fam!(t, op_rt),
         "dec" => by_fam!(t, op_dec),
         "hdrdec" => by_fam!(t, op_hdrdec),
+        "willdec" => op_willdec(t),
         "sched" => by_fam!(t, op_sched),
         "schedi" => by_fam!(t, op_schedi),
         "stream" => by_fam!(t, op_stream),
@@ -1097,6 +1098,39 @@ fn inv_re_fields<F: Fam>(out: &mut String, x: char, r: &Res<F::Packet, F::Err>) 
         }
         _ => out.push('-'),
     }
+}
+
+/// `willdec HEX`: v5 LastWill::decode_async called directly (QoS 1, retain false) on the bytes of a will
+/// (will properties, topic, payload) -> res=ok|err ERR|PANIC;inv=ok|fail:..|-;used=NUM
+fn op_willdec(t: &mut Toks) -> PResult<String> {
+    let bytes = t.hex()?;
+    t.done()?;
+    let mut rd: &[u8] = &bytes;
+    let r = guard(|| block_on(mqtt_proto::v5::LastWill::decode_async(&mut rd, mqtt_proto::QoS::Level1, false)));
+    let mut out = String::from("res=");
+    let mut inv = String::from("-");
+    match r {
+        Ok(Ok(w)) => {
+            out.push_str("ok");
+            // judged as part of a CONNECT carrying it
+            let mut c = mqtt_proto::v5::Connect::new(std::sync::Arc::new("c".to_owned()), 10);
+            c.last_will = Some(w);
+            inv = match <V5 as Fam>::inv(&mqtt_proto::v5::Packet::Connect(c)) {
+                Ok(()) => "ok".to_owned(),
+                Err(e) => format!("fail:{}", e),
+            };
+        }
+        Ok(Err(e)) => {
+            out.push_str("err ");
+            pk5::print_err(&mut out, &e);
+        }
+        Err(p) => panic_str(&mut out, &p),
+    }
+    out.push_str(";inv=");
+    out.push_str(&inv);
+    out.push_str(";used=");
+    tok::num(&mut out, (bytes.len() - rd.len()) as u64);
+    Ok(out)
 }
 
 /// `hdrdec FAM HEX`: the bare fixed-header decoders, blocking and async, on the same bytes
